@@ -51,7 +51,8 @@ def simulated(rnd, i):
         _, err = outcome(lambda: run_with(Solver(b['pt']), b['q']('TimeInterval', op['dt'], op['dt_unit']), b['q']('TimeInterval', op['T'], op['T_unit'])))
         if err is None and i % 2 == 0:
             # continue in OTHER time units (and another step): the recorded axis then holds instants of mixed units
-            u1, u2 = rnd.choice(solver_gen.TIME_UNITS), rnd.choice(solver_gen.TIME_UNITS)
+            u1 = rnd.choice([u for u in solver_gen.TIME_UNITS if u != op['dt_unit']])      # (really ANOTHER unit than the first run's)
+            u2 = rnd.choice(solver_gen.TIME_UNITS)
             d2 = op['dt'] * rnd.choice([Fraction(1), Fraction(1, 2), Fraction(2)])
             _, err = outcome(lambda: run_with(Solver(b['pt']), b['q']('TimeInterval', d2, u1), b['q']('TimeInterval', d2 * rnd.randint(2, 5), u2)))
         if err is None and i % 3 == 1:
